@@ -64,7 +64,9 @@ Definition remove_base_impl (domain_root : bool) (src base : uri) : N * uri :=
         let d := if negb (is_host_set src) && is_host_set base then set_scheme (scheme src) d else d in
         copy_path (copy_authority d src) src
       else if domain_root then
-        fix_ambiguity (set_absolutePath true (copy_path d src))
+        (* the path "/" is the absolute path without segments: uriFixEmptyTrailSegment ([dest] has no
+           authority here), then uriFixAmbiguity *)
+        fix_ambiguity (fix_empty_trail_segment (set_absolutePath true (copy_path d src)))
       else
         let '(s, b) := skip_common (pathSegs src) (pathSegs base) in
         let ups := parents b in
